@@ -355,12 +355,19 @@ func runC19(c *eng.Ctx, tier string) {
 						}
 					}
 				}
-			} else if lk, isLk := eng.Origin(a.Base).(*ssa.Lookup); isLk {
-				for _, rl := range eng.RangeLoops(f) {
-					if rl.ElemOf(lk.Index) {
-						if call, idx := eng.TupleCall(rl.Slice); call != nil && idx == 0 {
-							if cal := eng.Callee(&call.Call); cal != nil && cal.Name() == "secretNames" {
-								okName = true
+			} else {
+				base := eng.Origin(a.Base)
+				if ex, isEx := base.(*ssa.Extract); isEx && ex.Index == 0 {
+					base = ex.Tuple // v, ok := m[name]
+				}
+				if lk, isLk := base.(*ssa.Lookup); isLk {
+					for _, rl := range eng.RangeLoops(f) {
+						if rl.ElemOf(lk.Index) {
+							// the list is result #0 of a method of the configuration
+							if call, idx := eng.TupleCall(rl.Slice); call != nil && idx == 0 {
+								if cal := eng.Callee(&call.Call); cal != nil && cal.Signature.Recv() != nil && eng.IsNamed(cal.Signature.Recv().Type(), setecPkg, "StoreConfig") {
+									okName = true
+								}
 							}
 						}
 					}
